@@ -55,9 +55,9 @@ REQUIRED = (
   ["pair:%s->%s" % (i, o) for i in R.IN_TYPES for o in R.OUT_TYPES]
   + ["c1:bytes-compared", "c1:direct-compared", "c2:ext-case", "c2:explicit-type", "c2:type-overrides-extension",
      "c3:both-observable", "c3:config-file-only", "c4:lang-in-ttml", "c5:unsupported-input", "c5:unsupported-output",
-     "c5:unknown-subcommand", "c6:cli-valid", "c6:cli-invalid", "c6:cli-lenient-judged", "c6:parse-valid",
+     "c5:unknown-subcommand", "c4:lang-with-null-log-level", "c6:cli-valid", "c6:cli-invalid", "c6:cli-lenient-judged", "c6:parse-valid",
      "c6:parse-invalid", "c6:parse-lenient", "c7:hashseed-compared", "c7:history-compared", "c7:general-variants",
-     "c7:progress-judged", "c7:progress-shown", "filter:lcd", "filter:lcd-twice", "filter:probe-order", "kind:unused", "kind:empty-module", "nontrivial"]
+     "c7:progress-judged", "c7:progress-shown", "c7:progress-after-incomplete-bar", "filter:lcd", "filter:lcd-twice", "filter:probe-order", "kind:unused", "kind:empty-module", "nontrivial"]
 )
 SHARD_TIMEOUT = {"quick": 600, "thorough": 3000}
 
@@ -363,6 +363,12 @@ def make_spec(rng, kind, in_fmt, out_fmt, src, data):
     s["config"] = {"general": {"document_lang": rng.choice(R.TABLE[("general", "document_lang")]["valid"])}}
     if rng.random() < 0.4:
       s["filters"] = ["lcd"]
+    # the other general settings beside it, including JSON null (accepted by the code as "leave alone"): the
+    # language override does not depend on them
+    if rng.random() < 0.8:
+      s["config"]["general"]["log_level"] = rng.choice(["INFO", "WARN", "ERROR", None, None, None])
+    if rng.random() < 0.3:
+      s["config"]["general"]["progress_bar"] = rng.choice([True, False, None])
   elif kind == "general":
     s["config"] = {"general": {"progress_bar": rng.choice([True, False]), "log_level": rng.choice(["INFO", "WARN", "ERROR"])}}
     if rng.random() < 0.3:
@@ -788,6 +794,8 @@ def _check_case(ctx, wdir, spec, cli_first):
     except et.ParseError as e:
       got = "unparseable output: %s" % e
     ctx.count("c4:lang-in-ttml")
+    if "log_level" in cfg["general"] and cfg["general"]["log_level"] is None:
+      ctx.count("c4:lang-with-null-log-level")
     if got != lang:
       ctx.violation("document-lang", "general.document_lang = %r but the TTML output has xml:lang = %r; argv %s" % (lang, got, shown_argv), payload(spec))
 
@@ -849,8 +857,31 @@ def pick_input(rng, inputs, fmt):
   return rng.choice(inputs[fmt])
 
 
+NO_BODY_TTML = b'<?xml version="1.0" encoding="UTF-8"?>\n<tt xmlns="http://www.w3.org/ns/ttml" xml:lang="en"><head><layout/></head></tt>\n'
+
+
 def run_conv(ctx, work, p):
   inputs = load_inputs(ctx.seed, ctx.tier)
+  if p["part"] == 0:
+    # directed: the language override beside JSON null general settings, to TTML, from every input format
+    for in_fmt in R.IN_TYPES:
+      for null_key in ("log_level", "progress_bar"):
+        rng = ctx.rng("null-general", in_fmt, null_key)
+        src, data = pick_input(rng, inputs, in_fmt)
+        spec = make_spec(rng, "lang", in_fmt, "ttml", src, data)
+        spec["config"]["general"][null_key] = None
+        check_case(ctx, work, spec)
+    # directed history: a conversion whose progress never reaches 100% (document without body), then a conversion
+    # with the progress bar disabled - the setting is honoured whatever the earlier conversion left behind
+    for out_fmt in R.OUT_TYPES:
+      rng = ctx.rng("stale-bar", out_fmt)
+      check_case(ctx, work, dict(new_spec("plain", "fixed:no-body", NO_BODY_TTML, "ttml", out_fmt),
+                                 config={"general": {"progress_bar": True, "log_level": "INFO"}}))
+      src, data = pick_input(rng, inputs, "ttml")
+      spec = make_spec(rng, "general", "ttml", out_fmt, src, data)
+      spec["config"] = {"general": {"progress_bar": False, "log_level": "INFO"}}
+      check_case(ctx, work, spec)
+      ctx.count("c7:progress-after-incomplete-bar")
   for i in range(p["part"], p["total"], p["parts"]):
     rng = ctx.rng("conv", i)
     kind = KINDS[i % len(KINDS)]
